@@ -336,9 +336,42 @@ theorem normalize_idem {name n : Bytes} (h : normalize cfg name = .ok n) : norma
 theorem noUpper_of_normalize {name n : Bytes} (h : normalize cfg name = .ok n) : NoUpper n := by
   rw [normalize_eq_normalizeName cfg h]; exact noUpper_normalizeName name
 
-/-- If a (raw) name resolves to the key of a stored lower-case name and the hash is injective,
-normalising the raw name does not change its key. -/
-theorem key_normalizeName_of_resolves (hH : Function.Injective cfg.H) {name stored : Bytes} {k : κ}
+/-! ### collision freedom on a finite list of names -/
+
+theorem mem_preimagesOf {names : List Bytes} {p : Bytes} :
+    p ∈ preimagesOf names ↔ ∃ n ∈ names, preimage n = .ok p := by
+  unfold preimagesOf
+  rw [List.mem_filterMap]
+  constructor
+  · rintro ⟨n, hn, h⟩
+    refine ⟨n, hn, ?_⟩
+    split at h
+    · rename_i q hq; cases h; exact hq
+    · cases h
+  · rintro ⟨n, hn, h⟩
+    exact ⟨n, hn, by rw [h]⟩
+
+/-- the form in which the hypothesis is used -/
+theorem NoHashCollision.eq {names : List Bytes} (h : NoHashCollision cfg names) {n1 n2 p1 p2 : Bytes}
+    (m1 : n1 ∈ names) (m2 : n2 ∈ names) (h1 : preimage n1 = .ok p1) (h2 : preimage n2 = .ok p2)
+    (he : cfg.H p1 = cfg.H p2) : p1 = p2 :=
+  h p1 (mem_preimagesOf.mpr ⟨n1, m1, h1⟩) p2 (mem_preimagesOf.mpr ⟨n2, m2, h2⟩) he
+
+theorem NoHashCollision.mono {names names' : List Bytes} (h : NoHashCollision cfg names)
+    (hsub : ∀ n ∈ names', n ∈ names) : NoHashCollision cfg names' := by
+  intro p hp q hq he
+  obtain ⟨n1, m1, h1⟩ := mem_preimagesOf.mp hp
+  obtain ⟨n2, m2, h2⟩ := mem_preimagesOf.mp hq
+  exact h.eq cfg (hsub _ m1) (hsub _ m2) h1 h2 he
+
+/-- an injective hash (the idealisation the earlier statements assumed) has no collision on any list -/
+theorem noHashCollision_of_injective (hH : Function.Injective cfg.H) (names : List Bytes) :
+    NoHashCollision cfg names := fun _ _ _ _ he => hH he
+
+/-- If a (raw) name resolves to the key of a stored lower-case name and the hash does not collide
+on the pre-images of these two names, normalising the raw name does not change its key. -/
+theorem key_normalizeName_of_resolves {names : List Bytes} (hH : NoHashCollision cfg names)
+    {name stored : Bytes} (mn : name ∈ names) (ms : stored ∈ names) {k : κ}
     (hk : getNameKeyPrefix cfg name = .ok k) (hs : getNameKeyPrefix cfg stored = .ok k)
     (hlow : NoUpper stored) : getNameKeyPrefix cfg (normalizeName name) = .ok k := by
   unfold getNameKeyPrefix at hk hs ⊢
@@ -352,7 +385,7 @@ theorem key_normalizeName_of_resolves (hH : Function.Injective cfg.H) {name stor
       simp only [Except.map] at hk hs
       have hk1 : cfg.H p = k := by injection hk
       have hs1 : cfg.H q = k := by injection hs
-      have hpq : p = q := hH (hk1.trans hs1.symm)
+      have hpq : p = q := hH.eq cfg mn ms hp hq (hk1.trans hs1.symm)
       subst hpq
       subst hk1
       rw [preimage_normalizeName hp, map_toLower_of_noUpper (preimage_noUpper hlow hq)]
